@@ -872,8 +872,10 @@ class Translator:
         base, ty = self.ex(e[1], env, B)
         f = self.tb.FIELDS.get((ty if not isinstance(ty, tuple) else ty[0], e[2]))
         if f is None:
+            if isinstance(ty, tuple) and ty[0] == "tuple" and e[2].isdigit() and len(ty[1]) == 2 and int(e[2]) < 2:
+                return ("(%s %s)" % ("fst" if e[2] == "0" else "snd", base), ty[1][int(e[2])])
             if isinstance(ty, tuple) and ty[0] == "tuple" and e[2].isdigit():
-                self.bad("tuple projection .%s (bind the tuple with a `let (a, b) = ..` pattern instead)" % e[2])
+                self.bad("tuple projection .%s of a tuple that is not a pair (bind it with a `let (a, b, ..) = ..` pattern instead)" % e[2])
             self.bad("field `.%s` of a value of type %s" % (e[2], ty))
         return (f[0].format(base), f[1])
 
